@@ -27,6 +27,13 @@ impl Resolver {
   #[verifier::external_body] pub fn end_scope(&mut self) -> (r: SymbolTable) ensures final(self).log@ == old(self).log@.push(Ev::End) { SymbolTable { p: 0 } }
   #[verifier::external_body] pub fn declare_variable(&mut self, t: &Token) ensures final(self).log@ == old(self).log@.push(Ev::Declare(t.id)) { }
   #[verifier::external_body] pub fn define_variable(&mut self, t: &Token) ensures final(self).log@ == old(self).log@.push(Ev::Define(t.id)) { }
-  #[verifier::external_body] pub fn expr(&mut self, e: &mut Expr) ensures final(self).log@ == old(self).log@.push(Ev::ResolveExpr(old(e).id)), final(e).id == old(e).id { }
-  #[verifier::external_body] pub fn block(&mut self, b: &mut Block) ensures final(self).log@ == old(self).log@.push(Ev::ResolveBlock(old(b).id)), final(b).id == old(b).id { }
+  #[verifier::external_body] pub fn expr(&mut self, e: &Expr) ensures final(self).log@ == old(self).log@.push(Ev::ResolveExpr(e.id)) { }
+  #[verifier::external_body] pub fn block(&mut self, b: &Block) ensures final(self).log@ == old(self).log@.push(Ev::ResolveBlock(b.id)) { }
 }
+
+pub struct Map { pub entries: Vec<(Expr, Expr)> }
+pub struct Call { pub args: Vec<Expr> }
+pub struct Ternary { pub cond: Expr, pub then: Expr, pub else_: Expr }
+pub struct Binary { pub lhs: Expr, pub rhs: Expr }
+pub struct Unary { pub expr: Expr }
+pub struct Index { pub index: Expr }
